@@ -1,13 +1,18 @@
 import WellenModel.Proofs.Hier
+import WellenModel.Proofs.HierRefine
 /-!
 # C08 — the hierarchy is a well-formed, fully navigable tree
 
 Two models: the pointer-level `Builder` (the code's representation: node arrays, child / next /
 parent links, scope stack with sentinel and flattened entries, `find_last_child` on re-opening) and
 the abstract specification `SpecSt` (nodes in declaration order with a parent pointer). The
-theorems below are about the specification, for EVERY balanced operation sequence; the pointer-level
-model and the real code are tied to it by the exhaustive small-scope + random differential run
-(every navigation observer is compared).
+theorems `C08_wellformed` … `C08_reopen_continues` are about the specification, for EVERY balanced operation sequence.
+`C08_builder_refines_spec` (`Proofs/HierRefine.lean`, a simulation proof over all operation sequences) ties the
+pointer-level model to it: for every balanced history the builder does not panic and its arrays, links, scope stack and
+cached last children represent exactly the specification's node list; `C08_walk_refines` reads the navigation
+observers off that relation (the item iterator of the top level and of every scope yields exactly the specification's
+children in declaration order, names / signals / parents agree). The real code is tied to the pointer-level model by
+the exhaustive small-scope + random differential run (every navigation observer is compared).
 -/
 namespace Wellen.Hier
 
@@ -65,6 +70,34 @@ theorem C08_reopen_continues (s : SpecSt) (name : String) (fl : Bool) (j : Nat)
     (h : findIdx? (fun n => n.isScope && n.parent == curParent s.stack && n.name == name) s.nodes 0 = some j) :
     specStep s (.scope name fl) = some { s with stack := .scope j :: s.stack } := by
   simp [specStep, h]
+
+/-- **the pointer-level builder refines the specification**: for every balanced operation sequence (every order of
+`add_scope` — new, re-opened, dissolved —, `add_var` and `pop_scope`) the model of `HierarchyBuilder` does not panic and
+ends in a state that represents the specification's node list under a numbering `ids` (`Rel`: same number of nodes,
+names / signals / parents agree, the child / next links of every scope and of the top level spell exactly the children in
+declaration order, the scope stack with its cached last children mirrors the open scopes) -/
+theorem C08_builder_refines_spec (ops : List Op) (s : SpecSt) (h : specRun ops = some s) :
+    ∃ b ids, run ops = some b ∧ Rel b s ids :=
+  rel_run ops {} {} s [] rel_init h
+
+/-- what the observers see: walking from the first item visits exactly the top-level nodes, walking from a scope's first
+child exactly that scope's children — in declaration order, each once (`ids` is injective) — and every visited item
+carries the declared name, signal and parent -/
+theorem C08_walk_refines (ops : List Op) (s : SpecSt) (h : specRun ops = some s) :
+    ∃ b ids, run ops = some b ∧ ids.length = s.nodes.length ∧ ids.Nodup ∧
+      itemsOf b b.firstItem = (childrenOf s.nodes none).map (idAt ids) ∧
+      (∀ (j k : Nat), ids[j]? = some (ItemId.scope k) →
+        itemsOf b (b.scopes.getD k default).child = (childrenOf s.nodes (some j)).map (idAt ids)) ∧
+      (∀ (i : Nat) (n : FNode) (x : ItemId), s.nodes[i]? = some n → ids[i]? = some x → NodeRel b ids n x) := by
+  obtain ⟨b, ids, hrun, hr⟩ := C08_builder_refines_spec ops s h
+  refine ⟨b, ids, hrun, hr.len, hr.nodup, items_eq_kids b s ids hr none, ?_, hr.node⟩
+  intro j k hjk
+  have := items_eq_kids b s ids hr (some j)
+  rwa [firstOf_scope b ids j k hjk] at this
+
+/-- non-vacuity of the refinement: the history below (re-opened scope, dissolved empty scope) runs on the builder -/
+example : ∃ b, run [.scope "a" false, .var "x" 0, .pop, .scope "a" false, .scope "" true, .var "y" 1, .pop, .pop] = some b ∧
+    b.scopes.size = 1 ∧ b.vars.size = 2 := ⟨_, rfl, rfl, rfl⟩
 
 /-- non-vacuity: a balanced history with a re-opened scope and a dissolved empty scope -/
 example : ∃ s, specRun [.scope "a" false, .var "x" 0, .pop, .scope "a" false, .scope "" true, .var "y" 1, .pop, .pop] = some s ∧
